@@ -18,6 +18,7 @@
 from __future__ import annotations
 
 import collections
+import fractions
 import inspect
 import logging
 import math
@@ -800,7 +801,8 @@ class PartitionBulkIndexParamSource:
         )
 
         all_bulks = number_of_bulks(self.corpora, start_index, end_index, self.total_partitions, self.bulk_size)
-        self.total_bulks = math.ceil((all_bulks * self.ingest_percentage) / 100)
+        # exact arithmetic: in binary floating point e.g. 1500 * 2.2 / 100 is slightly more than 33 and would be rounded up to 34
+        self.total_bulks = math.ceil(fractions.Fraction(str(self.ingest_percentage)) * all_bulks / 100)
 
     @property
     def percent_completed(self):
